@@ -40,9 +40,14 @@ def ref_static_bytes(r, ty):
     return b // 8 if b is not None else None
 
 
-def tight_guards(rep, name, ty, fn, ev, stats):
+def tight_guards(rep, name, ty, fn, ev, stats, events=None):
     """constant LengthError guards demand exactly what is consumed before the next guard"""
-    evs = [e for e in ev.events]
+    evs = [e for e in (ev.events if events is None else events)]
+    for e_ in evs:
+        # guards inside the region of an optional field, a loop body or a conditional are held to the same rule
+        b_ = getattr(e_, "body", None)
+        if b_ and e_.kind in ("opt_region", "cond_region"):
+            tight_guards(rep, name, ty, fn, ev, stats, b_)
     i = 0
     n = len(evs)
     while i < n:
